@@ -347,7 +347,7 @@ def _trap(name):
             return _REAL[name](*a, **k)
         raise UncontrolledRandomness(name)
 
-    f.__name__ = "trap_" + name.replace(".", "_")
+    f.__name__ = name.split(".")[-1]
     return f
 
 
@@ -546,6 +546,12 @@ _TRAP_NP = [
 # laplace / logistic / gumbel are only *referenced* by votekit (identity tests), they are
 # trapped as well:
 _TRAP_NP += ["laplace", "logistic", "gumbel"]
+
+for _f, _n in ((s_sample, "sample"), (s_choices, "choices"), (s_choice, "choice"), (s_shuffle, "shuffle"), (s_random, "random"),
+               (s_uniform, "uniform"), (n_choice, "choice"), (n_shuffle, "shuffle"), (n_permutation, "permutation"),
+               (n_uniform, "uniform"), (n_random, "random"), (n_normal, "normal"), (n_default_rng, "default_rng")):
+    _f.__name__ = _n  # votekit inspects voter_dist.__name__
+del _f, _n
 
 _installed = False
 
